@@ -64,6 +64,7 @@ type Behaviour struct {
 	ID     int       `json:"id"`
 	Family string    `json:"family"`
 	Settle bool      `json:"settle"`
+	Probe  bool      `json:"probe"` // append the attack suffix (forged data under every owned handshake)
 	Sess   []SessDef `json:"sess"`
 	Hist   []Act     `json:"hist"`
 	Msgs   []Term    `json:"msgs"`
@@ -151,11 +152,11 @@ type run struct {
 	now     time.Time
 	keys    map[string]ed25519.PrivateKey
 	sess    map[string]*sess
-	msgs    []realMsg         // real id = index+1
-	bind    map[int]int       // model id -> real id
+	msgs    []realMsg   // real id = index+1
+	bind    map[int]int // model id -> real id
 	adv     *attacker.Adv
 	advInit map[int]func() *noise.HandshakeState // real id of forged IH -> builds its initiator state
-	owned   map[int]*attacker.Ciphers     // real id of RH -> transport keys the attacker knows
+	owned   map[int]*attacker.Ciphers            // real id of RH -> transport keys the attacker knows
 	pts     map[int][]byte
 	valid   bool
 }
@@ -391,7 +392,6 @@ func (r *run) forge(t *Term) (out []byte, flat *Flat, why string, post func(id i
 	}
 	return nil, nil, "unknown term", nil
 }
-
 
 func main() {
 	in := flag.String("in", "", "behaviours (ndjson)")
